@@ -168,6 +168,192 @@ func (w *world) forced(bulk, writer string) string {
 	return "done"
 }
 
+// gateSet is a harness-implemented argument set whose Range/ForEach run `gate` once, right after the callback of the
+// element with index `after` has returned: the bulk operation that iterates it is then halfway through its writes.
+type gateSet struct {
+	ds.Set[E]
+	after int
+	gate  func()
+	once  sync.Once
+}
+
+func (g *gateSet) ForEach(cb func(E) error) error {
+	i := 0
+
+	return g.Set.ForEach(func(e E) error {
+		err := cb(e)
+		if i == g.after {
+			g.once.Do(g.gate)
+		}
+		i++
+
+		return err
+	})
+}
+
+func (g *gateSet) Range(cb func(E)) {
+	i := 0
+	g.Set.Range(func(e E) {
+		cb(e)
+		if i == g.after {
+			g.once.Do(g.gate)
+		}
+		i++
+	})
+}
+
+// readerPending reports whether some goroutine is blocked inside sync.(*RWMutex).RLock called from a ds.set method.
+func readerPending() bool {
+	buf := make([]byte, 1<<18)
+	n := runtime.Stack(buf, true)
+	for _, g := range strings.Split(string(buf[:n]), "\n\n") {
+		if strings.Contains(g, "sync.(*RWMutex).RLock(") && strings.Contains(g, "hive.go/ds.(*set[") {
+			return true
+		}
+	}
+
+	return false
+}
+
+// inside is the directed schedule "two single-element calls of one goroutine INSIDE a bulk operation that is halfway
+// through": goroutine A runs Apply with a gateSet as added (applyadd) or deleted (applydel) elements - the gate closes
+// after the first element was written - or Compute with a factory that reads the set and then stops at the gate
+// (compute); at the gate goroutine B is released and calls, one after the other, two of Add/Delete on the elements the
+// bulk operation is about (pair: del = Delete,Delete; add = Add,Add; mix = one of each).  A continues when B has
+// returned from both calls or is seen blocked in applyMutex.RLock (the unchanged code: B waits for the whole bulk
+// operation).  The elements are chosen so that the first call can only be explained AFTER the bulk operation and the second
+// only BEFORE it if both run in the window - a history that no linearization explains, whichever of Add/Delete lost its
+// lock, or when Apply/Compute do not exclude them (shared instead of exclusive lock, factory evaluated outside the
+// lock).  The three calls plus the final Has sweep go to the Lean `lin` checker and the Go Wing-Gong oracle.
+func (w *world) inside(bulk, pair string) string {
+	var init, adds, dels []E
+	var b1, b2 [2]interface{} // (kind, element) of B's calls
+	switch bulk + "/" + pair {
+	case "applyadd/del":
+		init, adds = []E{3}, []E{5, 2}
+		b1, b2 = [2]interface{}{"del", E(5)}, [2]interface{}{"del", E(2)}
+	case "applyadd/add":
+		init, adds = []E{3}, []E{5, 2}
+		b1, b2 = [2]interface{}{"add", E(5)}, [2]interface{}{"add", E(2)}
+	case "applyadd/mix":
+		init, adds = []E{3}, []E{5, 2}
+		b1, b2 = [2]interface{}{"del", E(5)}, [2]interface{}{"add", E(2)}
+	case "applydel/del":
+		init, dels = []E{5, 2, 3}, []E{5, 2}
+		b1, b2 = [2]interface{}{"del", E(5)}, [2]interface{}{"del", E(2)}
+	case "applydel/add":
+		init, dels = []E{5, 2, 3}, []E{5, 2}
+		b1, b2 = [2]interface{}{"add", E(5)}, [2]interface{}{"add", E(2)}
+	case "applydel/mix":
+		init, dels = []E{5, 2, 3}, []E{5, 2}
+		b1, b2 = [2]interface{}{"add", E(5)}, [2]interface{}{"del", E(2)}
+	case "compute/add":
+		init, adds, dels = []E{2, 3}, []E{4}, []E{1, 2}
+		b1, b2 = [2]interface{}{"add", E(1)}, [2]interface{}{"add", E(4)}
+	case "compute/mix":
+		init, adds, dels = []E{2, 3}, []E{4}, []E{1, 2}
+		b1, b2 = [2]interface{}{"add", E(1)}, [2]interface{}{"del", E(2)}
+	case "compute/del":
+		init, adds, dels = []E{2, 3}, []E{4}, []E{1, 2}
+		b1, b2 = [2]interface{}{"del", E(2)}, [2]interface{}{"del", E(4)}
+	default:
+		return "bad-op"
+	}
+	s := ds.NewSet(init...)
+	inWindow := make(chan struct{})
+	var bDone, observed atomic.Bool
+	gate := func() {
+		close(inWindow)
+		deadline := time.Now().Add(3 * time.Second)
+		for time.Now().Before(deadline) && !bDone.Load() {
+			if readerPending() {
+				observed.Store(true)
+
+				break
+			}
+			time.Sleep(100 * time.Microsecond)
+		}
+	}
+	var seq atomic.Int64
+	calls := make([]hcall, 3)
+	done := make(chan struct{}, 2)
+	failed := make(chan string, 2)
+	guard := func(f func()) {
+		defer func() {
+			if e := recover(); e != nil {
+				failed <- fmt.Sprint(e)
+			}
+			done <- struct{}{}
+		}()
+		f()
+	}
+	go guard(func() {
+		inv := seq.Add(1)
+		var m ds.SetMutations[E]
+		kind := "apply"
+		switch bulk {
+		case "applyadd":
+			m = s.Apply(ds.NewSetMutations[E]().WithAddedElements(&gateSet{Set: ds.NewSet(adds...), gate: gate}).WithDeletedElements(ds.NewSet(dels...)))
+		case "applydel":
+			m = s.Apply(ds.NewSetMutations[E]().WithAddedElements(ds.NewSet(adds...)).WithDeletedElements(&gateSet{Set: ds.NewSet(dels...), gate: gate}))
+		default:
+			kind = "compute"
+			dm := toMap(dels)
+			m = s.Compute(func(rs ds.ReadableSet[E]) ds.SetMutations[E] {
+				// the factory's reading of the set, then the window, then its answer
+				del := rs.Filter(func(e E) bool { return dm[e] })
+				gate()
+
+				return ds.NewSetMutations(adds...).WithDeletedElements(del)
+			})
+		}
+		ret := seq.Add(1)
+		calls[0] = hcall{inv, ret, fmt.Sprintf("%s;%s;%s;%s;%s", kind, commaList(adds), commaList(dels), commaList(m.AddedElements().ToSlice()), commaList(m.DeletedElements().ToSlice()))}
+	})
+	go guard(func() {
+		defer bDone.Store(true)
+		<-inWindow
+		for i, c := range [][2]interface{}{b1, b2} {
+			inv := seq.Add(1)
+			var res bool
+			if c[0].(string) == "del" {
+				res = s.Delete(c[1].(E))
+			} else {
+				res = s.Add(c[1].(E))
+			}
+			calls[1+i] = hcall{inv, seq.Add(1), fmt.Sprintf("%s;%d;%v", c[0], c[1], res)}
+		}
+	})
+	sig := map[string]string{"api": "Set", "oracle": "deadlock", "schedule": "singles-inside-" + bulk}
+	timeout := time.After(watchdog + 3*time.Second)
+	for i := 0; i < 2; i++ {
+		select {
+		case <-done:
+		case <-timeout:
+			w.r.Fail("deadlock", fmt.Sprintf("inside %s %s: %d of 2 goroutines returned within %v", bulk, pair, i, watchdog+3*time.Second), sig)
+			hangs++
+
+			return "hung"
+		}
+	}
+	select {
+	case msg := <-failed:
+		sig["oracle"] = "panic"
+		w.r.Fail("panic", fmt.Sprintf("inside %s %s: %s", bulk, pair, msg), sig)
+
+		return "done"
+	default:
+	}
+	if observed.Load() {
+		w.r.Count("inside:" + bulk + ":single-observed-blocked")
+	} else {
+		w.r.Count("inside:" + bulk + ":single-not-observed-blocked")
+	}
+	w.history(init, s, calls, &seq)
+
+	return "done"
+}
+
 // overlap is a directed two-goroutine scenario: a single-element call on x overlapping a Replace of a large set in
 // which x is a member before and after (x is re-added last, so the window in which the set is cleared but x not yet back
 // lasts n insertions).  The single caller waits until it has seen the set shrink (Size() takes no applyMutex: the
@@ -496,6 +682,160 @@ func (w *world) stress(kind string, threads, n int, seed uint64) string {
 		calls = append(calls, rs...)
 	}
 	w.history(init, s, calls, &seq)
+
+	return "done"
+}
+
+// race: `rounds` rounds of "one bulk call and three single-element calls about the same element x, released together".
+// addall: x absent, AddAll({3,x}) next to 3 x Add(x); delall: x present, DeleteAll({5,x}) next to 3 x Delete(x);
+// applyadd / applydel: the same with Apply.  Whatever the interleaving, exactly one of the four calls changes the
+// membership of x, so exactly one may report it (Add/Delete report prior presence, the bulk calls return the elements whose
+// membership changed): a bulk method that tests and writes in two steps (`if !s.Has(e) { s.Set(e) ... }`) lets two callers
+// report the same change.  A bulk call under the shared lock is judged per element (AddAll(l) = one Add per element of l
+// within the call's interval - each inner Set/Delete is a linearizable single-element operation), so the history of a round
+// consists of add/del calls only; the first rounds and every round in which the count is not one go to the Lean `lin`
+// checker and the Go Wing-Gong oracle.
+func (w *world) race(kind string, rounds int) string {
+	if rounds < 1 || rounds > 100000 {
+		return "bad-op"
+	}
+	const x = E(1)
+	adding := kind == "addall" || kind == "applyadd"
+	if !adding && kind != "delall" && kind != "applydel" {
+		return "bad-op"
+	}
+	other := E(5) // an element the bulk call mentions besides x: absent for the deleting kinds, 3 (present) for the adding ones
+	if adding {
+		other = 3
+	}
+	s := ds.NewSet(E(3))
+	sent, bad := 0, 0
+	for round := 0; round < rounds && bad < 3; round++ {
+		init := []E{3}
+		if adding {
+			s.Delete(x)
+		} else {
+			s.Add(x)
+			init = []E{3, x}
+		}
+		var seq atomic.Int64
+		calls := make([][]hcall, 4)
+		var reporters, ready atomic.Int32
+		start := make(chan struct{})
+		done := make(chan struct{}, 4)
+		failed := make(chan string, 4)
+		for t := 0; t < 4; t++ {
+			go func() {
+				defer func() {
+					if e := recover(); e != nil {
+						failed <- fmt.Sprint(e)
+					}
+					done <- struct{}{}
+				}()
+				<-start
+				// spinning barrier: the four calls start within nanoseconds of each other (a channel wakes them one by one)
+				ready.Add(1)
+				for spins := 0; ready.Load() < 4; spins++ {
+					if spins > 2000 {
+						runtime.Gosched()
+					}
+				}
+				inv := seq.Add(1)
+				var rep, repOther bool
+				single := "add"
+				if !adding {
+					single = "del"
+				}
+				switch {
+				case t > 0 && adding:
+					rep = s.Add(x)
+				case t > 0:
+					rep = s.Delete(x)
+				case kind == "addall":
+					res := s.AddAll(ds.NewSet(other, x))
+					rep, repOther = res.Has(x), res.Has(other)
+				case kind == "delall":
+					res := s.DeleteAll(ds.NewSet(other, x))
+					rep, repOther = res.Has(x), res.Has(other)
+				case kind == "applyadd":
+					res := s.Apply(ds.NewSetMutations(other, x)).AddedElements()
+					rep, repOther = res.Has(x), res.Has(other)
+				default:
+					res := s.Apply(ds.NewSetMutations[E]().WithDeletedElements(ds.NewSet(other, x))).DeletedElements()
+					rep, repOther = res.Has(x), res.Has(other)
+				}
+				ret := seq.Add(1)
+				if rep {
+					reporters.Add(1)
+				}
+				calls[t] = append(calls[t], hcall{inv, ret, fmt.Sprintf("%s;%d;%v", single, x, rep)})
+				if t == 0 {
+					calls[t] = append(calls[t], hcall{inv, ret, fmt.Sprintf("%s;%d;%v", single, other, repOther)})
+				}
+			}()
+		}
+		// two goroutines keep the ordered map's mutex busy with writes about elements outside the universe: the four
+		// contenders queue for it, which stretches whatever distance there is between a test and the write that follows it
+		var stopHammer atomic.Bool
+		hammerDone := make(chan struct{}, 2)
+		for h := 0; h < 2; h++ {
+			go func() {
+				defer func() { _ = recover(); hammerDone <- struct{}{} }()
+				e := E(1000 + h)
+				for !stopHammer.Load() {
+					s.Add(e)
+					s.Delete(e)
+				}
+			}()
+		}
+		close(start)
+		timeout := time.After(watchdog)
+		for i := 0; i < 4; i++ {
+			select {
+			case <-done:
+			case <-timeout:
+				stopHammer.Store(true)
+				w.r.Fail("deadlock", fmt.Sprintf("race %s: %d of 4 calls returned within %v", kind, i, watchdog),
+					map[string]string{"api": "Set", "oracle": "deadlock", "schedule": "race-" + kind})
+				hangs++
+
+				return "hung"
+			}
+		}
+		stopHammer.Store(true)
+		for h := 0; h < 2; h++ {
+			select {
+			case <-hammerDone:
+			case <-time.After(watchdog):
+				w.r.Fail("deadlock", fmt.Sprintf("race %s: background Add/Delete loop did not return within %v", kind, watchdog),
+					map[string]string{"api": "Set", "oracle": "deadlock", "schedule": "race-" + kind})
+				hangs++
+
+				return "hung"
+			}
+		}
+		select {
+		case msg := <-failed:
+			w.r.Fail("panic", fmt.Sprintf("race %s: %s", kind, msg), map[string]string{"api": "Set", "oracle": "panic", "schedule": "race-" + kind})
+
+			return "done"
+		default:
+		}
+		n := reporters.Load()
+		if n != 1 {
+			bad++
+			w.r.Count("race:" + kind + ":not-exactly-one-reporter")
+		}
+		if n != 1 || sent < 2 {
+			sent++
+			var all []hcall
+			for _, c := range calls {
+				all = append(all, c...)
+			}
+			w.history(init, s, all, &seq)
+		}
+	}
+	w.r.Count("race:" + kind + ":rounds")
 
 	return "done"
 }
@@ -839,6 +1179,20 @@ func runConcurrent(r *hx.Run) {
 	}
 	for i := 0; i < forcedN; i++ {
 		ops = append(ops, fmt.Sprintf("overlap del %d", 20000+5000*(i%5)), fmt.Sprintf("overlap add %d", 20000+5000*(i%5)))
+	}
+	for i := 0; i < forcedN; i++ {
+		for _, b := range []string{"applyadd", "applydel", "compute"} {
+			for _, p := range []string{"del", "add", "mix"} {
+				ops = append(ops, fmt.Sprintf("inside %s %s", b, p))
+			}
+		}
+	}
+	for _, k := range []string{"addall", "delall", "applyadd", "applydel"} {
+		rounds := 40 * forcedN // a two-step test-and-write shows within 25 rounds; a round costs about 4 ms (more under -race)
+		if rounds > 600 {
+			rounds = 600
+		}
+		ops = append(ops, fmt.Sprintf("race %s %d", k, rounds))
 	}
 	runCase(r, 0, ops)
 	ops = nil
